@@ -12,6 +12,7 @@ and faults.  After every operation:
 """
 import copy
 import random
+from urllib.parse import urljoin
 
 from dsim import world as W
 from dsim.canon import digest, jdump
@@ -33,7 +34,7 @@ EXPECTED_PROBES = ("abandon_with_scopes_pushed", "abandon_with_2plus_scopes_push
 
 VALIDATION_OPS = ["is_valid", "exhaust", "validate", "take_close", "take_drop", "take_cycle",
                   "tree", "best_match", "consumer_raises"]
-RESOLVER_OPS = ["resolve", "resolving", "in_scope"]
+RESOLVER_OPS = ["resolve", "resolving", "in_scope", "resolve_from_url", "resolve_fragment"]
 
 
 def generate(rng, tier="quick"):
@@ -43,6 +44,7 @@ def generate(rng, tier="quick"):
     fault_rate = rng.choice([0.0, 0.0, 0.35, 0.6])
     from dsim.sim import gen_cfg
     cfg = gen_cfg(rng, world, fault_rate)
+    cfg["default_resolver"] = rng.random() < 0.1          # Validator(schema) without resolver=
     nops = rng.randint(3, 14 if tier == "quick" else 24)
     enabled = [k for k in VALIDATION_OPS if rng.random() < 0.7] or ["is_valid", "take_close"]
     if rng.random() < 0.5:
@@ -80,11 +82,18 @@ def generate(rng, tier="quick"):
                     op["elsewhere"] = "whole"            # the whole call runs on another thread (sequentially)
                 else:
                     op["sub"] = rng.randrange(8)         # is_valid(instance, <a subschema object of the root>)
+            if kind in ("exhaust", "take_close", "take_drop", "take_cycle") and rng.random() < 0.15:
+                op["sub"] = rng.randrange(8)             # iter_errors(instance, <a subschema object of the root>)
             if kind in ("take_close", "take_drop") and rng.random() < 0.15:
                 # the iterator is handed to another thread (sequentially): started there, or finished there
                 op["elsewhere"] = rng.choice(["start", "finish"])
         elif kind == "resolve":
             op["ref"] = rng.choice(refs)
+        elif kind == "resolve_from_url":
+            op["ref"] = urljoin(world.get("root_url") or "http://sim.test/root/root.json", rng.choice(refs))
+        elif kind == "resolve_fragment":
+            op["doc"] = rng.choice(sorted(world["docs"]) + [""])
+            op["frag"] = rng.choice(["", "/definitions/n0", "/definitions", "/nowhere", "/definitions/n1/items"])
         elif kind == "resolving":
             op["ref"] = rng.choice(refs)
             op["body_raises"] = rng.random() < 0.5
